@@ -696,3 +696,442 @@ def latch_program(draw, early_virtual=True):
     if draw(st.booleans()):
         stmts.append(Decl("Signal", "r1", Bin(">", MemRead("m"), Num(0))))
     return Program(tuple(stmts)), thresholds, boolean_inputs
+
+
+# ------------------------------------------------------------------------------------------
+# Entities (C06, C08, C09, C18)
+# ------------------------------------------------------------------------------------------
+
+CONTROLLABLE = ["small-lamp", "inserter", "transport-belt", "train-stop", "assembling-machine-1", "fast-inserter"]
+NO_CONDITION_PROTOS = ["pump", "power-switch"]  # open finding F-nocond
+CONTAINERS = [("steel-chest", ITEMS), ("iron-chest", ITEMS), ("storage-tank", FLUIDS)]
+
+
+def grid_positions(draw, n, spread=6, neg=True):
+    """n distinct tile positions on a coarse grid (entities up to 4x4 never overlap)."""
+    cells = draw(st.lists(st.tuples(st.integers(-3 if neg else 0, 6), st.integers(-3 if neg else 0, 4)),
+                          min_size=n, max_size=n, unique=True))
+    return [(cx * spread, cy * spread) for cx, cy in cells]
+
+
+@st.composite
+def entity_program(draw, steer=True, early_virtual=True, avoid_nocond=True, max_entities=5, spread=6):
+    """Circuit-controlled entities with inlinable / non-inlinable enables and .output sources.
+    Returns (program, contents_domain) where contents_domain = {entity_var: [signal names]}."""
+    sc = Scope()
+    sc.steer = steer
+    pal = Palette(early_virtual)
+    types = list(draw(st.permutations(pal.types)))
+    stmts = []
+    in_type = {}
+    for _ in range(draw(st.integers(1, 4))):
+        name = sc.fresh(draw, "in")
+        ty = types.pop()
+        stmts.append(Decl("Signal", name, SigLit(ty, draw(num(small_int())))))
+        sc.signals.append(name)
+        sc.typed[name] = True
+        in_type[name] = ty
+    n_ent = draw(st.integers(1, max_entities))
+    n_src = draw(st.integers(0, 2))
+    pos = grid_positions(draw, n_ent + n_src, spread)
+    contents = {}
+    outs = []  # bundle names bound to .output
+    for i in range(n_src):
+        proto, sigs = draw(st.sampled_from(CONTAINERS))
+        var = f"src{i + 1}"
+        x, y = pos.pop()
+        stmts.append(Decl("Entity", var, Place(proto, Num(x), Num(y))))
+        contents[var] = list(sigs)
+        b = f"out{i + 1}"
+        stmts.append(Decl("Bundle", b, PropRead(var, "output")))
+        outs.append((b, sigs))
+        sc.bundles.append(b)
+    protos = CONTROLLABLE + ([] if avoid_nocond else NO_CONDITION_PROTOS)
+    for i in range(n_ent):
+        proto = draw(st.sampled_from(protos))
+        var = f"ent{i + 1}"
+        x, y = pos.pop()
+        stmts.append(Decl("Entity", var, Place(proto, Num(x), Num(y))))
+        k = draw(st.integers(0, 9))
+        e = None
+        if k <= 2:  # inlinable x CMP c
+            n = sc.pick(draw, sc.signals, False)
+            if n:
+                e = Bin(draw(st.sampled_from(CMPS)), Ref(n), draw(num(small_int())))
+        elif k == 3 and outs:  # any/all of an entity output
+            b, sigs = draw(st.sampled_from(outs))
+            bn = sc.pick(draw, [b], False)
+            if bn:
+                q = AnyOf(Ref(bn)) if draw(st.booleans()) else AllOf(Ref(bn))
+                e = Bin(draw(st.sampled_from(CMPS)), q, Num(draw(st.integers(0, 200))))
+        elif k == 4 and outs:  # selection from an entity output
+            b, sigs = draw(st.sampled_from(outs))
+            bn = sc.pick(draw, [b], False)
+            if bn:
+                e = Bin(draw(st.sampled_from(CMPS)), BSel(Ref(bn), draw(st.sampled_from(sigs))), Num(draw(st.integers(0, 200))))
+        elif k == 5:  # plain signal
+            n = sc.pick(draw, sc.signals, False)
+            if n:
+                e = Ref(n)
+        elif k == 6:  # arithmetic result
+            n = sc.pick(draw, sc.signals, False)
+            if n:
+                e = Bin(draw(st.sampled_from(["+", "-", "*", "%"])), Ref(n), draw(num(small_int())))
+        elif k == 7:  # non-inlinable comparison
+            a = sc.pick(draw, sc.signals, True)
+            b2 = sc.pick(draw, sc.signals, True)
+            if a and b2:
+                e = Bin(draw(st.sampled_from(CMPS)), Bin(draw(st.sampled_from(["+", "-", "*"])), Ref(a), Ref(b2)), draw(num(small_int())))
+            elif a:
+                e = Bin(draw(st.sampled_from(CMPS)), Bin("*", Ref(a), Num(2)), draw(num(small_int())))
+        elif k == 8:  # named comparison used once
+            n = sc.pick(draw, sc.signals, False)
+            if n:
+                c = sc.fresh(draw, "c")
+                stmts.append(Decl("Signal", c, Bin(draw(st.sampled_from(CMPS)), Ref(n), draw(num(small_int())))))
+                e = Ref(c)
+        if e is None:
+            e = Num(draw(st.sampled_from([0, 1])))
+        stmts.append(Assign(var, "enable", e))
+    return Program(tuple(stmts)), contents
+
+
+@st.composite
+def contents_valuations(draw, domain, n):
+    out = []
+    for _ in range(n):
+        c = {}
+        for var, sigs in domain.items():
+            d = {}
+            for s in draw(st.lists(st.sampled_from(sigs), max_size=3, unique=True)):
+                d[s] = draw(st.sampled_from([1, 5, 10, 11, 50, 100, 101, 199, 200, 201, 1000, 25000]))
+            c[var] = d
+        out.append(c)
+    return out
+
+
+# ------------------------------------------------------------------------------------------
+# CSE / folding bait (C10)
+# ------------------------------------------------------------------------------------------
+
+
+@st.composite
+def cse_program(draw, early_virtual=True):
+    """Repeated sub-expressions that differ only in output type or output mode, anonymous-constant
+    sub-expressions, high fan-out of one source into single-source consumers."""
+    pal = Palette(early_virtual)
+    types = list(draw(st.permutations(pal.types)))
+    stmts = []
+    ins = []
+    for i in range(draw(st.integers(1, 3))):
+        n = f"in{i + 1}"
+        stmts.append(Decl("Signal", n, SigLit(types.pop(), draw(num(small_int())))))
+        ins.append(n)
+    vi = 0
+    for _ in range(draw(st.integers(1, 3))):
+        a = draw(st.sampled_from(ins))
+        op = draw(st.sampled_from(["+", "-", "*", "/", "%", "AND", "XOR", "<<"]))
+        k = Num(draw(st.integers(1, 9)))
+        cmp_ = draw(st.sampled_from(CMPS))
+        c = Num(draw(st.integers(-5, 20)))
+        base = Bin(op, Ref(a), k)
+        cond = Bin(cmp_, Ref(a), c)
+        variants = [
+            base, Proj(base, types[0]), Proj(base, types[1]), base,
+            cond, Cond(cond, Num(1)), Cond(cond, Ref(a)), Cond(cond, Num(draw(st.integers(2, 9)))),
+            Proj(cond, types[2]), Un("-", Ref(a)), Un("!", Ref(a)), Bin(cmp_, base, c),
+            Bin("+", Bin(op, Num(draw(st.integers(1, 5))), Num(draw(st.integers(1, 5)))), Ref(a)),
+        ]
+        picks = draw(st.lists(st.integers(0, len(variants) - 1), min_size=2, max_size=6))
+        for p in picks:
+            vi += 1
+            stmts.append(Decl("Signal", f"v{vi}", variants[p]))
+    # a few consumers (single-source) of earlier results
+    names = [s.name for s in stmts if s.name.startswith("v")]
+    for _ in range(draw(st.integers(0, 3))):
+        vi += 1
+        src = draw(st.sampled_from(names))
+        stmts.append(Decl("Signal", f"v{vi}", Bin(draw(st.sampled_from(["+", "*", ">"])), Ref(src), Num(draw(st.integers(1, 7))))))
+    return Program(tuple(stmts))
+
+
+# ------------------------------------------------------------------------------------------
+# Loops (C16) and functions (C15): one abstract description, two printers
+# ------------------------------------------------------------------------------------------
+
+from .lang import Call, For, Func, ListIter, Range, Return, declared_names, iteration_values, subst  # noqa: E402
+
+
+def _loop_body(draw, it_names, inputs, pal, y_row, uid, allow_mem=False):
+    """Statements using the iterators; returns list of stmts (local names end in uid)."""
+    i = it_names[-1]
+    stmts = []
+
+    def idx_expr():
+        k = draw(st.integers(0, 4))
+        base = Ref(draw(st.sampled_from(it_names)))
+        if k == 0:
+            return base
+        if k == 1:
+            return Bin("*", base, Num(draw(st.integers(2, 3))))
+        if k == 2:
+            return Bin("+", base, Num(draw(st.integers(0, 3))))
+        if k == 3 and len(it_names) > 1:
+            return Bin("+", Bin("*", Ref(it_names[0]), Num(7)), Ref(it_names[-1]))
+        return Bin("-", base, Num(draw(st.integers(0, 2))))
+
+    n = draw(st.integers(1, 3))
+    for j in range(n):
+        k = draw(st.integers(0, 5))
+        if k <= 2:  # an entity per iteration, enable depends on the iterator
+            ev = f"e{uid}_{j}"
+            # x coordinate injective in the iterators: (outer * 40 + inner) * 2 + j
+            x = Ref(it_names[-1]) if len(it_names) == 1 else Bin("+", Bin("*", Ref(it_names[0]), Num(40)), Ref(it_names[-1]))
+            x = Bin("+", Bin("*", x, Num(3)), Num(j))
+            stmts.append(Decl("Entity", ev, Place("small-lamp", x, Num(y_row))))
+            inp = draw(st.sampled_from(inputs))
+            ek = draw(st.integers(0, 3))
+            if ek == 0:
+                e = Bin(draw(st.sampled_from(CMPS)), Ref(inp), idx_expr())
+            elif ek == 1:
+                e = Bin(draw(st.sampled_from(CMPS)), Bin("+", Ref(inp), idx_expr()), Num(draw(st.integers(0, 9))))
+            elif ek == 2:
+                e = Bin(">", Bin("*", Ref(inp), idx_expr()), Num(draw(st.integers(0, 9))))
+            else:
+                e = Bin("==", Bin("%", Ref(inp), Num(draw(st.integers(2, 5)))), Bin("%", idx_expr(), Num(2)))
+            stmts.append(Assign(ev, "enable", e))
+        elif k == 3:  # a local signal using the iterator as a typed-literal value
+            sv = f"t{uid}_{j}"
+            stmts.append(Decl("Signal", sv, Bin("+", SigLit(draw(st.sampled_from(pal.types)), idx_expr()), Num(draw(st.integers(0, 5))))))
+        elif k == 4:
+            sv = f"t{uid}_{j}"
+            stmts.append(Decl("Signal", sv, Bin(draw(st.sampled_from(["+", "*", "-"])), Ref(draw(st.sampled_from(inputs))), idx_expr())))
+        else:
+            sv = f"k{uid}_{j}"
+            stmts.append(Decl("int", sv, Bin("+", idx_expr(), Num(draw(st.integers(0, 4))))))
+            ev = f"e{uid}_{j}"
+            x = Ref(it_names[-1]) if len(it_names) == 1 else Bin("+", Bin("*", Ref(it_names[0]), Num(40)), Ref(it_names[-1]))
+            x = Bin("+", Bin("*", x, Num(3)), Num(j))
+            stmts.append(Decl("Entity", ev, Place("small-lamp", x, Num(y_row))))
+            stmts.append(Assign(ev, "enable", Bin(">", Ref(draw(st.sampled_from(inputs))), Ref(sv))))
+    return stmts
+
+
+def unroll(stmts, env_ints):
+    """Reference unrolling: copies of the body with the iterator replaced by each value in order,
+    body-declared names renamed apart per iteration."""
+    out = []
+    for s in stmts:
+        if isinstance(s, For):
+            class _E(dict):
+                pass
+            vals = iteration_values(s.it, {k: lang_IntV(v) for k, v in env_ints.items()})
+            for n, v in enumerate(vals):
+                local = declared_names(s.body)
+                ren = {nm: f"{nm}_u{n}" if v >= 0 else f"{nm}_u{n}" for nm in local}
+                body = subst(tuple(s.body), {s.var: Num(v)}, ren)
+                inner_env = dict(env_ints)
+                inner_env[s.var] = v
+                # nested loops inside the body: rename their bodies' locals too
+                out += unroll(_suffix_nested(body, f"_u{n}"), inner_env)
+        else:
+            out.append(s)
+    return out
+
+
+def _suffix_nested(stmts, suffix):
+    res = []
+    for s in stmts:
+        if isinstance(s, For):
+            local = declared_names(s.body)
+            ren = {nm: nm + suffix for nm in local}
+            res.append(For(s.var, s.it, _suffix_nested(subst(tuple(s.body), {}, ren), suffix)))
+        else:
+            res.append(s)
+    return tuple(res)
+
+
+from .lang import IntV as lang_IntV  # noqa: E402
+
+
+@st.composite
+def loop_case(draw, tier="quick", avoid_shadow=True):
+    """(program with loops, its manual unrolling, info)."""
+    pal = Palette(True)
+    types = list(draw(st.permutations(pal.types)))
+    stmts = []
+    inputs = []
+    for i in range(draw(st.integers(1, 2))):
+        n = f"in{i + 1}"
+        stmts.append(Decl("Signal", n, SigLit(types.pop(), draw(num(small_int())))))
+        inputs.append(n)
+    ints = {}
+    for i in range(draw(st.integers(0, 2))):
+        n = f"n{i + 1}"
+        v = draw(st.integers(-6, 6))
+        stmts.append(Decl("int", n, Num(v)))
+        ints[n] = v
+    n_loops = draw(st.integers(1, 2))
+    uid = 0
+    info = {"triples": [], "nested": False, "list": False, "var_bounds": False, "empty": False}
+    for li in range(n_loops):
+        uid += 1
+
+        def bound(v):
+            cands = [k for k, x in ints.items() if x == v]
+            if cands and draw(st.integers(0, 2)) == 0:
+                info["var_bounds"] = True
+                return Ref(cands[0])
+            return Num(v)
+
+        def make_iter():
+            if draw(st.integers(0, 4)) == 0:
+                vals = draw(st.lists(st.integers(-6, 9), max_size=4, unique=True))
+                info["list"] = True
+                if not vals:
+                    info["empty"] = True
+                return ListIter(tuple(Num(v) for v in vals)), vals
+            a, b = draw(st.integers(-6, 6)), draw(st.integers(-6, 6))
+            s = draw(st.sampled_from([None, 1, 2, 3, -1, -2, -3, 4, -5]))
+            it = Range(bound(a), bound(b), None if s is None else bound(s))
+            vals = iteration_values(Range(Num(a), Num(b), None if s is None else Num(s)), {})
+            info["triples"].append((a, b, s))
+            if not vals:
+                info["empty"] = True
+            return it, vals
+
+        it, vals = make_iter()
+        if len(vals) > 6:
+            it, vals = Range(Num(0), Num(3), None), [0, 1, 2]
+        var = f"i{uid}"
+        if draw(st.integers(0, 3)) == 0 and len(vals) <= 3:  # nested
+            it2, vals2 = make_iter()
+            if len(vals2) > 4:
+                it2, vals2 = Range(Num(0), Num(2), None), [0, 1]
+            var2 = f"j{uid}"
+            inner = _loop_body(draw, [var, var2], inputs, pal, 10 * li, f"{uid}n")
+            body = _loop_body(draw, [var], inputs, pal, 10 * li + 4, f"{uid}o") if draw(st.booleans()) else []
+            stmts.append(For(var, it, tuple(body + [For(var2, it2, tuple(inner))])))
+            info["nested"] = True
+        else:
+            stmts.append(For(var, it, tuple(_loop_body(draw, [var], inputs, pal, 10 * li, str(uid)))))
+    progA = Program(tuple(stmts))
+    progB = Program(tuple(unroll(stmts, ints)))
+    return progA, progB, info
+
+
+@st.composite
+def func_case(draw, steer=True, allow_local_memory=False):
+    """(program with functions and calls, the same program with the calls substituted)."""
+    pal = Palette(True)
+    types = list(draw(st.permutations(pal.types)))
+    top = []
+    inputs = []
+    for i in range(draw(st.integers(2, 4))):
+        n = f"in{i + 1}"
+        top.append(Decl("Signal", n, SigLit(types.pop(), draw(num(small_int())))))
+        inputs.append(n)
+    ints = []
+    for i in range(draw(st.integers(0, 2))):
+        n = f"n{i + 1}"
+        top.append(Decl("int", n, Num(draw(st.integers(-9, 9)))))
+        ints.append(n)
+    funcs = {}
+    n_funcs = draw(st.integers(1, 2))
+    for fi in range(n_funcs):
+        fname = f"f{fi + 1}"
+        params = []
+        for pi in range(draw(st.integers(1, 3))):
+            kind = draw(st.sampled_from(["Signal", "Signal", "int"]))
+            # parameter names may deliberately coincide with caller names (hygiene)
+            pname = draw(st.sampled_from([f"p{pi}", f"p{pi}", inputs[0] if not steer or True else f"p{pi}", f"x{pi}"]))
+            if pname in [p[1] for p in params]:
+                pname = f"p{pi}"
+            params.append((kind, pname))
+        sig_params = [p for k, p in params if k == "Signal"]
+        int_params = [p for k, p in params if k == "int"]
+        body = []
+        locals_ = []
+        cur_pool = list(sig_params)
+        for bi in range(draw(st.integers(0, 2))):
+            lname = draw(st.sampled_from([f"t{bi}", f"t{bi}", "tmp", inputs[-1]]))
+            if lname in locals_ or lname in [p[1] for p in params]:
+                lname = f"t{bi}"
+            if not cur_pool:
+                break
+            src = cur_pool.pop(0)
+            rhs = Ref(draw(st.sampled_from(int_params))) if int_params and draw(st.booleans()) else Num(draw(st.integers(1, 9)))
+            body.append(Decl("Signal", lname, Bin(draw(st.sampled_from(["+", "*", "-", "XOR", ">"])), Ref(src), rhs)))
+            locals_.append(lname)
+            cur_pool.append(lname)
+        ret_kind = draw(st.integers(0, 3))
+        if not cur_pool:
+            ret = Bin("+", Ref(int_params[0]), Num(1)) if int_params else Num(1)
+        elif ret_kind == 0 or len(cur_pool) == 1:
+            ret = Bin(draw(st.sampled_from(["+", "*", "-"])), Ref(cur_pool[0]), Num(draw(st.integers(1, 5))))
+        elif ret_kind == 1:
+            ret = Bin(draw(st.sampled_from(["+", "-", "*"])), Ref(cur_pool[0]), Ref(cur_pool[1]))
+        else:
+            ret = Cond(Bin(draw(st.sampled_from(CMPS)), Ref(cur_pool[0]), Num(draw(st.integers(0, 9)))), Ref(cur_pool[1] if len(cur_pool) > 1 else cur_pool[0]))
+        if fi == 1 and draw(st.booleans()):  # nested call of f1 inside f2
+            f1 = funcs["f1"]
+            args = []
+            ok = True
+            pool2 = list(cur_pool)
+            for k, _p in f1.params:
+                if k == "Signal":
+                    if pool2:
+                        args.append(Ref(pool2.pop(0)))
+                    else:
+                        ok = False
+                else:
+                    args.append(Ref(int_params[0]) if int_params else Num(draw(st.integers(1, 5))))
+            if ok:
+                body.append(Decl("Signal", "inner", Call("f1", tuple(args))))
+                ret = Bin("+", Ref("inner"), Num(draw(st.integers(0, 3))))
+        funcs[fname] = Func(fname, tuple(params), tuple(body + [Return(ret)]))
+    progA = list(top) + list(funcs.values())
+    progB = list(top)
+    free = list(inputs)
+    call_no = 0
+
+    def inline(fname, args, target, depth=0):
+        """Statements that compute `target = fname(args)` by substitution."""
+        nonlocal call_no
+        call_no += 1
+        f = funcs[fname]
+        suffix = f"_c{call_no}"
+        ren = {n: n + suffix for n in declared_names(f.body)}
+        refs = {p: a for (_k, p), a in zip(f.params, args)}
+        out = []
+        for s in f.body:
+            if isinstance(s, Return):
+                out.append(Decl("Signal", target, subst(s.e, refs, ren)))
+            elif isinstance(s, Decl) and isinstance(s.e, Call):
+                inner_args = tuple(subst(a, refs, ren) for a in s.e.args)
+                out += inline(s.e.f, inner_args, ren[s.name], depth + 1)
+            else:
+                out.append(subst(s, refs, ren))
+        return out
+
+    n_calls = draw(st.integers(1, 3))
+    for ci in range(n_calls):
+        fname = draw(st.sampled_from(sorted(funcs)))
+        f = funcs[fname]
+        args = []
+        ok = True
+        for k, _p in f.params:
+            if k == "Signal":
+                ak = draw(st.integers(0, 4))
+                if ak == 0:
+                    args.append(Num(draw(st.integers(1, 9))))  # int -> Signal coercion
+                elif free:
+                    args.append(Ref(free.pop(0) if steer else draw(st.sampled_from(inputs))))
+                else:
+                    args.append(Num(draw(st.integers(1, 9))))
+            else:
+                args.append(Ref(draw(st.sampled_from(ints))) if ints and draw(st.booleans()) else Num(draw(st.integers(-5, 9))))
+        target = f"r{ci + 1}"
+        progA.append(Decl("Signal", target, Call(fname, tuple(args))))
+        progB += inline(fname, tuple(args), target)
+    return Program(tuple(progA)), Program(tuple(progB))
